@@ -61,6 +61,7 @@ func aimShapes() *idlgen.Program {
 				fld(1, "x", rR, i32, nil),
 				fld(2, "s", rO, str, nil),
 				fld(3, "cs", rD, tList(tName(1, "Color")), nil),
+				fld(4, "blob", rO, tBase(idlgen.Binary), nil), // the same inside nested / list-element / map-key structs
 			}},
 			{Kind: 'u', Name: "Choice", Fields: []*idlgen.Field{
 				fld(1, "a", rO, i32, nil),
@@ -100,6 +101,8 @@ func aimShapes() *idlgen.Program {
 				fld(11, "rbin", rR, tBase(idlgen.Binary), nil),
 				fld(12, "pe", rO, color, nil),
 				fld(13, "pd", rO, tBase(idlgen.Double), nil),
+				fld(14, "pbin", rO, tBase(idlgen.Binary), nil), // optional binary WITHOUT default: the `!= nil` rule of isContainerType
+				fld(15, "plb", rO, tList(tBase(idlgen.Binary)), nil),
 			}},
 			// every container shape of the BLength fast paths, struct map keys, nesting 4 deep
 			{Kind: 's', Name: "Shapes", Fields: []*idlgen.Field{
